@@ -9,7 +9,8 @@ data-request messages), of `v2/mmc/mmc.go` (`Message.SysEx/Parse`, `GoTo.SysEx/P
 * Go indexing `bt[i]` / slicing `bt[lo:hi]` is modelled by `idx` / `slice`, which answer `none` when Go
   would panic; the parsers map that to the explicit outcome `.panic` (the length guards of the Go code
   are what makes it unreachable, and that is a theorem, not a convention).
-* `Checksum` sums in `int32`: `sumI32` wraps after every addition, the remainder is Go's truncated `%`
+* `Checksum` sums in `int32`: `sumU32` wraps after every addition (modulo 2^32 on the two's-complement
+  pattern, read back as a signed value by `toI32`), the remainder is Go's truncated `%`
   (`Int.tmod`), the result is converted with `byte(...)` (`% 256`).
 * `mmc.Message.Parse` and `mmc.GoTo.Parse` have pointer receivers and update the receiver field by
   field; an error leaves the fields written so far. The model therefore takes the receiver's old value
@@ -48,13 +49,17 @@ structure Manufacturer where
   n2 : Nat
 deriving DecidableEq, Repr
 
-/-- Go `int32` wrap-around of a mathematical integer -/
-def wrap32 (x : Int) : Int := (x + 2147483648) % 4294967296 - 2147483648
-
-/-- `for _, b := range bt { su += int32(b) }` -/
-def sumI32 : Bytes → Int → Int
+/-- `for _, b := range bt { su += int32(b) }` on the two's-complement bit pattern of `su`
+    (a `Nat` below 2^32: addition of `int32` values is addition modulo 2^32 on the patterns) -/
+def sumU32 : Bytes → Nat → Nat
   | [], acc => acc
-  | b :: r, acc => sumI32 r (wrap32 (acc + (b : Int)))
+  | b :: r, acc => sumU32 r ((acc + b) % 4294967296)
+
+/-- the `int32` value of a bit pattern -/
+def toI32 (n : Nat) : Int := if n < 2147483648 then (n : Int) else (n : Int) - 4294967296
+
+/-- the value of `su` after the loop -/
+def sumI32 (l : Bytes) : Int := toI32 (sumU32 l 0)
 
 /-- the bytes `Checksum` sums: the address, then the request size or the payload -/
 def body (s : Manufacturer) : Bytes := if s.req then [s.n0, s.n1, s.n2] else s.data
@@ -63,7 +68,7 @@ def summed (s : Manufacturer) : Bytes := [s.a0, s.a1, s.a2] ++ body s
 
 /-- the arithmetic of `Checksum` on the list of summed bytes -/
 def cksumOf (l : Bytes) : Nat :=
-  let rem := Int.tmod (sumI32 l 0) 128
+  let rem := Int.tmod (sumI32 l) 128
   if rem = 0 then 0 else ((128 - rem) % 256).toNat
 
 /-- `Manufacturer.Checksum()` -/
